@@ -75,7 +75,9 @@ def variants(recipe, case):
             (dict(kind='sim', recipe=recipe, mask=MASK, warmup=2), 7919),
             (dict(kind='sim', recipe=recipe, mask=MASK, patch_uuid=12345), 424242),
             # the process-global container counter stands just below a power of ten (ids are strings)
-            (dict(kind='sim', recipe=recipe, mask=MASK, counter_start=[8, 97, 996, 9995][len(recipe['pipes']) % 4]), 5)]
+            (dict(kind='sim', recipe=recipe, mask=MASK, counter_start=[8, 97, 996, 9995][len(recipe['pipes']) % 4]), 5),
+            # scaling laws handed over as anonymous callables, after other simulations did the same
+            (dict(kind='sim', recipe=recipe, mask=MASK, callable_laws=True, warmup=1), 77)]
     hits = []
     for job, hs in jobs:
         r = sub(job, hs)
@@ -83,6 +85,7 @@ def variants(recipe, case):
             what = 'a fresh process' + (' after other simulations' if job.get('warmup') else '') + \
                    (' with other uuid values' if job.get('patch_uuid') else '') + \
                    (f' with the container counter at {job["counter_start"]}' if job.get('counter_start') else '') + \
+                   (' with the scaling laws passed as callables' if job.get('callable_laws') else '') + \
                    f' (PYTHONHASHSEED={hs})'
             k = next((i for i, (a, b) in enumerate(zip(r['obs'], case['obs_raw'])) if a != b), min(len(r['obs']), len(case['obs_raw'])))
             hits.append(dict(desc=f'run differs in {what}: first difference at position {k} of the canonical event log',
@@ -113,7 +116,7 @@ def run(ctx):
     with ThreadPoolExecutor(8) as ex:
         for h in ex.map(lambda rc: variants(*rc), recipes):
             hits += h
-            st['process_variants'] += 4
+            st['process_variants'] += 5
     # the generated workload depends only on workload parameters, tick rate and seed
     ngen = ctx.budget(12, 150)
 
